@@ -38,6 +38,7 @@ func HarnessC13LogRecord() {
 	vndAssert(int32(o.SeverityNumber) == int32(r.Severity()) || (r.Severity() > 24 && o.SeverityNumber == 0), "severity-table")
 	vndAssert(o.Body.GetIntValue() == 7, "body-identical")
 	vndAssert(o.Flags == uint32(r.TraceFlags()), "flags-identical")
+	vndAssert(o.DroppedAttributesCount == 3, "dropped-attribute-count-identical")
 	tid, sid := r.TraceID(), r.SpanID()
 	if tid.IsValid() {
 		vndAssert(len(o.TraceId) == 16 && o.TraceId[15] == tid[15], "trace-id-identical")
